@@ -17,22 +17,51 @@ import random
 import numpy as np
 
 from .. import core, encode, inputs, pool
+from . import rel_common as rc
 
 FNS = ["betweenness_bin", "betweenness_wei", "edge_betweenness_bin", "edge_betweenness_wei"]
 NODE_OF = {"edge_betweenness_bin": "betweenness_bin", "edge_betweenness_wei": "betweenness_wei"}
 TRACE = ("Trace_Betweenness.tla", "Trace_Betweenness.cfg")
 
 
+# what each routine may be handed for a drawn dtype (rel_common.admissible): the *_bin routines
+# are documented for binary networks (bool allowed); betweenness_bin copies its argument to float
+# first (uint8 allowed), the other three work in the argument's dtype; every output is a sum of
+# fractions (real-valued) -> no float32 anywhere.
+TRAITS = {"betweenness_bin": dict(binary=True, floats_first=True), "edge_betweenness_bin": dict(binary=True),
+          "betweenness_wei": dict(), "edge_betweenness_wei": dict()}
+
+
+def arg_dtype(fn, dtype):
+    return rc.admissible(dtype, **TRAITS[fn])
+
+
 def exec_job(job):
     import bct
-    A = np.array(job["A"], dtype=float)
-    n = len(A)
+    A0 = np.array(job["A"], dtype=float)
+    n = len(A0)
     fn = job["fn"]
-    rec = dict(fn=fn, n=n, A=encode.mat_int(A), raised="", malformed="",
+    dt, lay = job.get("draw", job.get("dtype", "float64")), job.get("layout", "C")
+    rec = dict(fn=fn, n=n, A=encode.mat_int(A0), raised="", malformed="",
                bc=[], ebc=[], ref_bc=[], ref_raised="")
+
+    def arg(name):
+        """a fresh argument array for routine `name`: same lengths, drawn dtype / layout; with
+        via='weights' the caller's pipeline weights -> weight_conversion(W, 'lengths') -> routine
+        (the *_wei routines take a connection-LENGTH matrix; W = 1/L with 1/(1/L) == L exactly)"""
+        if job.get("via") == "weights":
+            W = np.zeros_like(A0)
+            W[A0 != 0] = 1.0 / A0[A0 != 0]
+            back = np.zeros_like(A0)
+            back[W != 0] = 1.0 / W[W != 0]
+            if not np.array_equal(back, A0):
+                raise core.MachineryError("1/(1/L) != L for the lengths of this job")
+            return bct.weight_conversion(rc.as_variant(W, "float64", lay), "lengths")
+        return rc.as_variant(A0, arg_dtype(name, dt), lay)
+    arg(fn)
     with np.errstate(all="ignore"):
         try:
-            out = getattr(bct, fn)(A.copy())
+            out = getattr(bct, fn)(arg(fn))
         except Exception as e:
             rec["raised"] = encode.exc_name(e)
             return rec
@@ -53,7 +82,7 @@ def exec_job(job):
             return rec
         if fn in NODE_OF:
             try:
-                ref = getattr(bct, NODE_OF[fn])(A.copy())
+                ref = getattr(bct, NODE_OF[fn])(arg(NODE_OF[fn]))
                 rec["ref_bc"] = encode.vec_q(ref)
             except Exception as e:
                 rec["ref_raised"] = encode.exc_name(e)
@@ -76,29 +105,32 @@ def with_lengths(rng, A, und, lens):
     return L
 
 
-def jobs_for(A, src, binary):
+def jobs_for(A, src, binary, variant=rc.PLAIN, via=""):
     fns = FNS if binary else ["betweenness_wei", "edge_betweenness_wei"]
-    return [dict(fn=fn, src=src, A=np.asarray(A).astype(int).tolist()) for fn in fns]
+    # `dtype` = what the job's own routine is handed (failure tags), `draw` = the input's draw
+    return [dict(fn=fn, src=src, A=np.asarray(A).astype(int).tolist(), dtype=arg_dtype(fn, variant[0]),
+                 draw=variant[0], layout=variant[1], via=via if fn.endswith("_wei") else "") for fn in fns]
 
 
-def random_graph(rng, k):
+def random_graph(rng):
+    """every choice is an independent draw from the seeded RNG (direction x shape x density)"""
     n = rng.randint(6, 10)
-    und = (k % 2 == 0)
-    shape = k % 5
+    und = rng.random() < 0.5
+    shape = rng.choice(["gnp", "isolated", "blocks", "bridge", "layered"])
     p = rng.choice([0.12, 0.2, 0.3, 0.5])
     A = inputs.rand_graph(rng, n, p, und=und)
-    if shape == 1:                      # isolated node(s)
+    if shape == "isolated":             # isolated node(s)
         for v in rng.sample(range(n), rng.randint(1, 2)):
             A[v, :] = 0
             A[:, v] = 0
-    elif shape == 2:                    # two blocks without any connection between them
+    elif shape == "blocks":             # two blocks without any connection between them
         h = rng.randint(2, n - 2)
         A[:h, h:] = 0
         A[h:, :h] = 0
-    elif shape == 3 and not und:        # one-way bridge: second block cannot reach the first
+    elif shape == "bridge" and not und:  # one-way bridge: second block cannot reach the first
         h = rng.randint(2, n - 2)
         A[h:, :h] = 0
-    elif shape == 4:                    # layered / grid-like: many equal-length alternatives
+    elif shape == "layered":            # layered / grid-like: many equal-length alternatives
         A = np.zeros((n, n))
         layers, v = [], 0
         while v < n:
@@ -115,6 +147,19 @@ def random_graph(rng, k):
     return A, und
 
 
+def structured_graph(rng):
+    """paths, cycles, stars, complete (bipartite) graphs, caterpillars, rings of cliques, equal /
+    unequal components, isolated nodes (rel_common.structured_support), undirected or oriented"""
+    name, n, edges = rc.structured_support(rng, 5, 10)
+    und = rng.random() < 0.5
+    if not und:
+        edges = rc.orient(rng, edges)
+    return name, inputs.mat_from_edges(n, edges, und=und), und
+
+
+LENS = [[1, 2], [1, 2, 3], [1], [2], [3], [1, 3], [2, 3]]     # tie-rich; single values: lengths = c x hops
+
+
 def build_jobs(ctx):
     rng = random.Random(ctx.seed)
     jobs = []
@@ -122,6 +167,7 @@ def build_jobs(ctx):
            ("und", 5, None), ("dir", 4, 700 if ctx.quick else None)]
     if not ctx.quick:
         fam.append(("und", 6, 3000))
+    model = []
     for kind, n, cap in fam:
         graphs = inputs.model_graphs(ctx, kind, n)
         if cap is not None:
@@ -130,15 +176,30 @@ def build_jobs(ctx):
         for edges in graphs:
             A = inputs.mat_from_edges(n, edges, und=und)
             jobs += jobs_for(A, "model-%s%d" % (kind, n), True)
+            model.append((A, "model-%s%d" % (kind, n), True))
             if edges:
                 L = with_lengths(rng, A, und, rng.choice([[1, 2], [1, 2], [1, 2, 3]]))
                 jobs += jobs_for(L, "model-%s%d-len" % (kind, n), False)
+                model.append((L, "model-%s%d-len" % (kind, n), False))
+    # a sample of the model inputs again as another argument dtype / memory layout, and through
+    # the weights -> lengths pipeline
+    for A, src, binary in inputs.sample(rng, model, 300 if ctx.quick else 4000):
+        jobs += jobs_for(A, src + "-variant", binary,
+                         rc.draw_variant(rng, rc.DT_BIN if binary else rc.DT_COUNT),
+                         via=rng.choice(["", "", "weights"]))
     for k in range(250 if ctx.quick else 2500):
-        A, und = random_graph(rng, k)
-        jobs += jobs_for(A, "random", True)
-        if k % 2 == 0 or ctx.quick:
-            jobs += jobs_for(with_lengths(rng, A, und, [1, 2, 3] if k % 3 else [1, 2]),
-                             "random-len", False)
+        if rng.random() < 0.3:
+            name, A, und = structured_graph(rng)
+            src = "struct-" + name
+        else:
+            A, und = random_graph(rng)
+            src = "random"
+        jobs += jobs_for(A, src, True, rc.draw_variant(rng, rc.DT_BIN, p_plain=0.4),
+                         via=rng.choice(["", "", "", "weights"]))
+        if ctx.quick or rng.random() < 0.5:
+            jobs += jobs_for(with_lengths(rng, A, und, rng.choice(LENS)), src + "-len", False,
+                             rc.draw_variant(rng, rc.DT_COUNT, p_plain=0.4),
+                             via=rng.choice(["", "", "", "weights"]))
     return jobs
 
 
@@ -147,7 +208,8 @@ def what(job, rec, clause):
         return "raised %s" % rec["raised"]
     if rec.get("malformed"):
         return "malformed output: %s" % rec["malformed"]
-    return "n=%d src=%s" % (rec["n"], job.get("src"))
+    return "n=%d src=%s dtype=%s layout=%s%s" % (rec["n"], job.get("src"), job.get("dtype", "float64"),
+                                               job.get("layout", "C"), " via=weights" if job.get("via") else "")
 
 
 def run(ctx):
@@ -162,7 +224,8 @@ def run(ctx):
     jobs = build_jobs(ctx)
     recs = pool.run_jobs(__name__, jobs)
     verdicts = ctx.validate(*TRACE, recs, chunk=8000)
-    ctx.judge(jobs, recs, verdicts, what)
+    ctx.judge(jobs, rc.tag_failures(ctx, jobs, recs, verdicts), verdicts, what)
+    ctx.extra["argument_variants"] = rc.variant_counts(jobs)
     # non-trivial (measured on what the code returned / the class the spec computed): distinct
     # inputs on which some returned value is not a whole number (a tie was split) or some node
     # is unreachable from some source
@@ -178,7 +241,11 @@ def run(ctx):
     ctx.rule = ("every undirected graph on 3..%s nodes and every digraph on 3 nodes, %s digraphs on 4 "
                 "nodes%s (TLC-enumerated; binary, and with lengths drawn from {1,2} or {1,2,3}), seeded "
                 "random graphs n in 6..10 (isolated nodes, disconnected blocks, one-way bridges, layered "
-                "tie-rich graphs); non-trivial = distinct input where a returned value is fractional "
+                "tie-rich graphs) and structured families (paths, cycles, stars, complete, bipartite, caterpillars, "
+                "rings of cliques, equal/unequal components; also oriented) with lengths from tie-rich and "
+                "single-value sets; a sample of all inputs again as another argument dtype (bool/uint8/int32/int64 "
+                "where the routine's domain allows it) and memory layout (Fortran, transposed, window, strided) "
+                "and through weight_conversion(1/L, 'lengths'); all choices drawn from the seeded RNG; non-trivial = distinct input where a returned value is fractional "
                 "(a tie was split) or some node is unreachable from some source"
                 % (("5", "700 sampled", "") if q else
                    ("5", "all", ", 3000 sampled undirected graphs on 6 nodes")))
